@@ -123,17 +123,19 @@ def r2_mode_reaches_solver(ctx, chk, rule="C12.2"):
         inner = d[2][0] if d[0] == "call" and d[1] in ("copy.deepcopy", "copy.copy", "dict") and d[2] else d
         # inner = setitem(game, 'prune_states', mode)
         t = inner
+        flagp = shared.solver_names(ctx)["flag_param"]
         while t[0] == "setitem":
-            if t[2] == C("prune_states"):
+            if t[2] == C(flagp):
                 ok = t[3] == mode
-                detail = "game['prune_states'] = %s" % show(t[3])
+                detail = "game['%s'] = %s" % (flagp, show(t[3]))
                 break
             t = t[1]
     else:
         kws = dict((k, v) for k, v in c[3] if k)
-        if "prune_states" in kws:
-            ok = kws["prune_states"] == mode
-            detail = "prune_states=%s" % show(kws["prune_states"])
+        flagp = shared.solver_names(ctx)["flag_param"]
+        if flagp in kws:
+            ok = kws[flagp] == mode
+            detail = "%s=%s" % (flagp, show(kws[flagp]))
     if ok:
         chk.ok(rule, s.f.where(Li.node), "the game handed to StochasticGame carries prune_states = the mode loop variable (%s)" % detail)
     else:
@@ -376,11 +378,27 @@ def r5_record(ctx, chk, rec_t, rule="C12.5"):
         chk.undecided(rule, f.where(Li.node), "flag / try not identified")
         return
     good, bad = flag_states(s)
+    # a key of the entry may have been renamed (consistently with the report writer): a key that is not one of the documented
+    # names and whose solved value is exactly the slot of a missing documented key stands for it
+    aliases = {}
     for key, slot in SLOT_OF.items():
-        if key not in rec:
+        if key in rec:
+            continue
+        for k2, v2 in rec.items():
+            if k2 in SLOT_OF or k2 in aliases.values():
+                continue
+            a2 = scenario(s, v2, good, False)
+            if a2[0] == "idx" and a2[1][0] == "mcall" and a2[1][2] == "solve" and a2[2] == C(slot):
+                aliases[key] = k2
+                break
+    ctx.cache["C12.key_alias"] = aliases
+    for key, slot in SLOT_OF.items():
+        if key not in rec and key in aliases:
+            chk.note("entry key %r appears as %r" % (key, aliases[key]))
+        elif key not in rec:
             chk.violation(rule, f.where(Li.node), "the entry has no key %r" % key, expected=key, found=sorted(rec), construct="run_games record key %s" % key)
             continue
-        v = rec[key]
+        v = rec[aliases.get(key, key)]
         vA, vB, vC = scenario(s, v, good, False), scenario(s, v, good, True), scenario(s, v, bad if bad is not None else (not good), None)
         want_d = DEFAULTS[key]
         okA = vA[0] == "idx" and vA[1][0] == "mcall" and vA[1][2] == "solve"
@@ -461,4 +479,25 @@ def run(ctx, chk):
     shared.rule_input_ownership(ctx, chk, "C12.pre:C10.1")
     from . import C10
     C10.r2_no_carried_state(ctx, chk, "C12.pre:C10.2")
+    # "the remaining games are still solved": a malformed game must fail with the error the driver catches (ValueError), whatever is malformed
+    from . import C09
+    C09.r123_check_game(ctx, chk, "C12.pre:C09.1")
+    C09.r4_check_next_states(ctx, chk, "C12.pre:C09.1")
     chk.require_instances("C12.5", 12)
+
+
+def key_aliases(ctx):
+    """{documented key: key actually used by run_games} for renamed entry keys (computed by r5_record)."""
+    if "C12.key_alias" not in ctx.cache:
+        class _Q:
+            extra = {}
+
+            def ok(self, *a, **k):
+                pass
+            violation = undecided = note = ok
+        try:
+            rec = r1_keys(ctx, _Q())
+            r5_record(ctx, _Q(), rec)
+        except Exception:
+            ctx.cache.setdefault("C12.key_alias", {})
+    return ctx.cache.get("C12.key_alias", {})
